@@ -61,7 +61,7 @@ def run(ctx, report: Report) -> None:
     mmod = src.mod('css_match')
 
     # ---- R1 ---------------------------------------------------------------------------------------------
-    r1 = report.rule('C18-R1', 'value shapes follow the HTML microsyntaxes', floor=3)
+    r1 = report.rule('C18-R1', 'value shapes follow the HTML microsyntaxes', floor=1)
     for name, (full, subset, gap) in REFS.items():
         r = inv.by_name(f'css_match.{name}')
         uses = [c for c in ast.walk(mmod.tree) if isinstance(c, ast.Call) and isinstance(c.func, ast.Attribute)
@@ -138,7 +138,7 @@ def run(ctx, report: Report) -> None:
                                  f'{q}: year argument `{unparse(c.args[0])}` of {cn}() is not bounded within 1..9999 '
                                  f'(interval {iv}): valid HTML years outside that range are rejected or raise')
     # ---- R2 ---------------------------------------------------------------------------------------------
-    r2 = report.rule('C18-R2', 'field bounds, month lengths and the leap-year predicate', floor=2)
+    r2 = report.rule('C18-R2', 'field bounds, month lengths and the leap-year predicate', floor=1)
     for fname, (lo, hi) in BOUNDS.items():
         _, fn = src.func(f'css_match.Inputs.{fname}')
         param = fn.args.args[-1].arg
@@ -202,20 +202,19 @@ def run(ctx, report: Report) -> None:
                      f'proleptic Gregorian calendar says {not got}')
 
     # ---- R4 ---------------------------------------------------------------------------------------------
-    r4 = report.rule('C18-R4', 'range types agree between definition, parser and comparison', floor=2)
+    r4 = report.rule('C18-R4', 'range types agree between definition, parser and comparison', floor=1)
     css_in = None
     pm = src.mod('css_parser')
-    for st in pm.tree.body:
-        if isinstance(st, ast.Assign) and unparse(st.targets[0]) in ('CSS_IN_RANGE', 'CSS_OUT_OF_RANGE'):
-            for c in ast.walk(st.value):
-                if isinstance(c, ast.Constant) and isinstance(c.value, str) and 'type' in c.value:
-                    types = set(re.findall(r'\[\s*type\s*=\s*["\']?([a-z-]+)["\']?\s*\]', c.value))
-                    r4.instance({'definition': unparse(st.targets[0]), 'types': sorted(types)}, key=unparse(st.targets[0]))
-                    if types != RANGE_TYPES:
-                        r4.violation(f'css_parser.{unparse(st.targets[0])} types', pm.where(st),
-                                     f'{unparse(st.targets[0])} lists input types {sorted(types)}, the range-typed inputs '
-                                     f'are {sorted(RANGE_TYPES)}')
-                    css_in = types
+    from .sem import selector_constants
+    for cname, rec in selector_constants(ctx).items():
+        if cname in ('CSS_IN_RANGE', 'CSS_OUT_OF_RANGE'):
+            types = set(re.findall(r'\[\s*type\s*=\s*["\']?([a-z-]+)["\']?\s*\]', rec['text']))
+            r4.instance({'definition': cname, 'types': sorted(types)}, key=cname)
+            if types != RANGE_TYPES:
+                r4.violation(f'css_parser.{cname} types', 'soupsieve/css_parser.py',
+                             f'{cname} lists input types {sorted(types)}, the range-typed inputs '
+                             f'are {sorted(RANGE_TYPES)}')
+            css_in = types
 
     def types_compared(fn, var):
         out = set()
@@ -246,11 +245,11 @@ def run(ctx, report: Report) -> None:
     if css_in is None:
         raise AnalysisError('CSS_IN_RANGE definition not found')
 
-    r5 = report.rule('C18-R5', 'ordering semantics over all relative orders of (min, max, value)', floor=100)
+    r5 = report.rule('C18-R5', 'ordering semantics over all relative orders of (min, max, value)', floor=224)
     range_table(ctx, report, r5, mmod, mr, itype_var)
 
     # ---- R6 ---------------------------------------------------------------------------------------------
-    r6 = report.rule('C18-R6', 'every string a value-shape regex accepts is converted (no accepted value is lost in int()/float())', floor=8)
+    r6 = report.rule('C18-R6', 'every string a value-shape regex accepts is converted (no accepted value is lost in int()/float())', floor=3)
     from ..callgraph import CallGraph
     from ..excflow import ExcFlow, INT_WS
     cg = ctx.get('callgraph', lambda: CallGraph(ctx.types, src))
@@ -313,7 +312,7 @@ def run(ctx, report: Report) -> None:
                     r6.note(f'{q}: `{unparse(c)[:60]}`: {why} - not decided for this site')
 
     # ---- R7 ---------------------------------------------------------------------------------------------
-    r7 = report.rule('C18-R7', 'all parsed values of one input type have one arity (tuples are compared lexicographically)', floor=5)
+    r7 = report.rule('C18-R7', 'all parsed values of one input type have one arity (tuples are compared lexicographically)', floor=1)
     import re._parser as _sp2
     from ..interp import Obj as _O, Raised as _R, call_function as _call
     from ..tables import match_obj as _mo
